@@ -93,19 +93,7 @@ func ProcessSchedPart(run *report.Run, st *Setup, n int, kinds map[string]bool) 
 				t.Outs = append(t.Outs, spec.Out{Kind: "dir", Path: fmt.Sprintf("sub%d.d", k)})
 			}
 		}
-		// the same dependency listed twice by a target (grog accepts that): it is still one
-		// dependency, and the target still runs once
-		for _, t := range s.Targets {
-			if len(t.Deps) > 0 && r.Chance(1, 4) {
-				d := t.Deps[r.Intn(len(t.Deps))]
-				if r.Chance(1, 2) {
-					t.Deps = append(t.Deps, d)
-				} else {
-					t.Deps = append([]string{d}, t.Deps...)
-				}
-				run.Count("targets_listing_a_dependency_twice", 1)
-			}
-		}
+		RepeatDeps(r, s, run)
 		gcfg := randCfg(r)
 		gcfg.NumWorkers = r.Range(1, 8)
 		if i%6 == 5 {
@@ -291,4 +279,23 @@ func ProcessSchedPart(run *report.Run, st *Setup, n int, kinds map[string]bool) 
 		}
 		run.Sample(map[string]any{"process_case": i, "shape": s.Shape(), "num_workers": gcfg.NumWorkers, "history": env.Log})
 	})
+}
+
+// RepeatDeps makes some targets list one of their dependencies two to four times (also through
+// another spelling of the same label): grog accepts that, it is still one dependency, the target
+// still runs once and the build still ends.
+func RepeatDeps(r *rng.R, s *spec.Spec, run *report.Run) {
+	for _, t := range s.Targets {
+		if len(t.Deps) > 0 && r.Chance(1, 4) {
+			d := t.Deps[r.Intn(len(t.Deps))]
+			for k := r.Range(1, 3); k > 0; k-- {
+				if r.Chance(1, 2) {
+					t.Deps = append(t.Deps, d)
+				} else {
+					t.Deps = append([]string{d}, t.Deps...)
+				}
+			}
+			run.Count("targets_listing_a_dependency_several_times", 1)
+		}
+	}
 }
